@@ -816,6 +816,19 @@ fn ref_respond(spec: &RefServerSpec, ordinal: usize, request: &[u8], src: Socket
                 p2.extra_top.push((r::ROOT, r::leaf_hash(proto, leaf)));
                 parts = p2;
             }
+            Forgery::RaggedPath(n) => {
+                let mut n2 = nonce.clone();
+                n2[0] ^= 1;
+                let mut req2 = request.to_vec();
+                if let Some(pos) = request.windows(nonce.len()).position(|w| w == &nonce[..]) {
+                    req2[pos] ^= 1;
+                }
+                let mut p2 = honest_parts(proto, &long_seed, &online_seed, &req2, &n2, &slot);
+                p2.nonce = nonce.clone();
+                let want = *n as usize / 4 * 4;
+                p2.path.resize(want, 0x5a);
+                parts = p2;
+            }
             Forgery::ShadowTag { tag, seed } => {
                 let mut v = vec![0u8; if tag == "PUBK" || tag == "ROOT" { 32 } else if tag == "RADI" { 4 } else { 8 }];
                 Rng::derive(*seed, "shadow").fill(&mut v);
